@@ -104,17 +104,19 @@ def differs(tmpdir, item, h0, h1, n0, n1, key=None):
                 break
     return votes >= 2, first[0], first[1]
 
-def clause_fails(tmpdir, item, which):
+def clause_fails(tmpdir, item, which, prefix=()):
+    """Does the generated-input clause `which` fail on `item` in a fresh interpreter - after the items of
+    `prefix` were executed in the same interpreter (a failure may depend on what the process did before)?"""
     fd, path = tempfile.mkstemp(prefix='item-', suffix='.json', dir=tmpdir)
     with os.fdopen(fd, 'w') as f:
-        json.dump([item], f)
+        json.dump(list(prefix) + [item], f)
     try:
-        a, ea = launch(tmpdir, 0, 1, 0, 0, path, 300)
+        a, ea = launch(tmpdir, 0, 1, 0, 0, path, 600)
     finally:
         os.unlink(path)
-    if not a or is_bad(a[0][2]):
+    if not a or len(a) != len(prefix) + 1 or is_bad(a[-1][2]):
         return False, None
-    r = a[0][2]
+    r = a[-1][2]
     if which == 'idempotence':
         return (not r.get('idem', True)), r
     if which == 'sharing-sensitivity':
@@ -218,11 +220,11 @@ def main(args):
                 clause_counts['idempotence_checked'] += 1
                 clause_counts['order_variants_checked'] += len(res['variants_equal'])
                 if not res['idem']:
-                    viol.append(('idempotence', items[idx], w, hs[0], nz0, nz0, {'simp': res['simp'][0], 'again': res.get('idem_got')}))
+                    viol.append(('idempotence', items[idx], w, hs[0], nz0, nz0, {'simp': res['simp'][0], 'again': res.get('idem_got'), '_prefix': items[:idx]}))
                 elif not res.get('interned_equal', True):
-                    viol.append(('sharing-sensitivity', items[idx], w, hs[0], nz0, nz0, {'simp': res['simp'][0]}))
+                    viol.append(('sharing-sensitivity', items[idx], w, hs[0], nz0, nz0, {'simp': res['simp'][0], '_prefix': items[:idx]}))
                 elif not all(res['variants_equal']):
-                    viol.append(('order-insensitivity', items[idx], w, hs[0], nz0, nz0, {'simp': res['simp'][0]}))
+                    viol.append(('order-insensitivity', items[idx], w, hs[0], nz0, nz0, {'simp': res['simp'][0], '_prefix': items[:idx]}))
             elif kind == 'emul':
                 nt = len(res['dump_mem']) >= 2
                 if not res.get('rerun_equal', True):
@@ -252,6 +254,7 @@ def main(args):
         if cls in seen or len(seen) >= 3:
             continue
         seen.add(cls)
+        detail = dict(detail)
         if cls.startswith('seed-dependence'):
             votes = 2 if differs(tmpdir, item, hs[0], h, nz0, nz1)[0] else 0
             if votes < 2:
@@ -264,15 +267,33 @@ def main(args):
                    'schedule': 'two fresh interpreters, same item', 'faults': ['hashseed=%s' % h, 'alloc-noise=%s' % nz1]}
         else:
             which = cls
+            prefix = []
             ok, _ = clause_fails(tmpdir, item, which)
+            if not ok and detail.get('_prefix'):
+                # not a function of the item alone: the failure depends on what the interpreter simplified before
+                # (process-wide state).  Reproduce with the workload prefix and shrink the prefix.
+                prefix = [x for x in detail['_prefix'] if x['kind'] == 'simp']
+                ok, _ = clause_fails(tmpdir, item, which, prefix)
+                if not ok:
+                    prefix = list(detail['_prefix'])
+                    ok, _ = clause_fails(tmpdir, item, which, prefix)
+                if ok:
+                    prefix = core.ddmin(prefix, lambda cand: clause_fails(tmpdir, item, which, cand)[0], 40)
+                    if len(prefix) == 1 and clause_fails(tmpdir, item, which, [])[0]:
+                        prefix = []
             if not ok:
                 batch.harness_errors.append('C13 clause failure (%s) did not reproduce' % cls)
                 continue
-            small = minimise_item(item, lambda c: clause_fails(tmpdir, dict(c, variants=gen13.variants(random.Random(1), c['e'], 4)) if which == 'order-insensitivity' and c['kind'] == 'simp' else c, which)[0])
-            if which == 'order-insensitivity':
-                small = dict(small, variants=gen13.variants(random.Random(1), small['e'], 4))
-            _, o = clause_fails(tmpdir, small, which)
-            rec = {'property': 'C13', 'class': cls, 'seed': seed, 'workload': w, 'items': [small], 'hashseeds': [0], 'noise_seeds': [0],
+            if prefix:
+                small = item
+            else:
+                small = minimise_item(item, lambda c: clause_fails(tmpdir, dict(c, variants=gen13.variants(random.Random(1), c['e'], 4)) if which == 'order-insensitivity' and c['kind'] == 'simp' else c, which)[0])
+                if which == 'order-insensitivity':
+                    small = dict(small, variants=gen13.variants(random.Random(1), small['e'], 4))
+            _, o = clause_fails(tmpdir, small, which, prefix)
+            if prefix:
+                cls = cls + ':history-dependent'
+            rec = {'property': 'C13', 'class': cls, 'seed': seed, 'workload': w, 'items': list(prefix) + [small], 'hashseeds': [0], 'noise_seeds': [0],
                    'expected': 'clause holds', 'got': o, 'schedule': 'one fresh interpreter (generated-input clause, not simulation)', 'faults': []}
         path = core.write_replay('C13', rec)
         batch.violations.append({'replay': path, 'class': cls})
@@ -317,7 +338,8 @@ def replay(path, tmpdir):
             return 1
         print('replay: outputs agree')
         return 0
-    ok, o = clause_fails(tmpdir, item, rec['class'])
+    which = rec['class'].replace(':history-dependent', '')
+    ok, o = clause_fails(tmpdir, rec['items'][-1], which, rec['items'][:-1])
     if ok:
         print('VIOLATION property=C13 replay=%s' % path)
         print('  class=%s reproduced=True' % rec['class'])
